@@ -197,6 +197,16 @@ theorem tcp_bucket_exact (s : TcpSig) (o : TcpObs) (hv : o.version ≠ .any) (hp
         · exact absurd h hs
         · exact h
 
+/-- No key is generated twice for a signature, so every entry sits at most once in a bucket and is
+examined at most once per lookup. -/
+theorem tcp_keys_nodup (s : TcpSig) : (tcpSigKeys s).Nodup := by
+  unfold tcpSigKeys
+  cases hv : s.version <;> cases hp : s.pclass <;> simp
+
+theorem http_keys_nodup (s : HttpSig) : (httpSigKeys s).Nodup := by
+  unfold httpSigKeys
+  cases hv : s.version <;> simp
+
 example : olayoutChars [.mss, .nop, .ws, .eol 1, .unknown 254] = "mss,nop,ws,eol+1,?254".toList := by
   have e1 : decChars 1 = ['1'] := by rw [decChars]; decide
   have e2 : decChars 2 = ['2'] := by rw [decChars]; decide
